@@ -771,7 +771,30 @@ pub fn gen_scenario(rng: &mut Rng) -> Scenario {
             add(&mut modules, rng, a, b); // back edge or self loop
         }
         5 => {
-            match rng.below(3) {
+            match rng.below(5) {
+                3 => {
+                    // the first module imports the heads of several chains
+                    let k = rng.range(2, 4);
+                    for c in 0..k {
+                        let mut prev = 0;
+                        let mut i = 1 + c;
+                        while i < n {
+                            add(&mut modules, rng, prev, i);
+                            prev = i;
+                            i += k;
+                        }
+                    }
+                }
+                4 => {
+                    // a binary tree
+                    for a in 0..n {
+                        for b in [2 * a + 1, 2 * a + 2] {
+                            if b < n {
+                                add(&mut modules, rng, a, b);
+                            }
+                        }
+                    }
+                }
                 0 => {
                     for a in 0..n - 1 {
                         add(&mut modules, rng, a, a + 1);
